@@ -9,9 +9,11 @@ import Biogo.Go.Wire
 import Biogo.Model.Feat
 import Biogo.Model.Gene
 import Biogo.Spec.Gene
+import Biogo.Spec.GeneCheck
 
 namespace Biogo.Drive.C20
 open Biogo.Wire Biogo.Gene Biogo.Feat Biogo.Spec.Gene
+open Biogo.Spec.GeneCheck (addStatement txStatement gfStatement maxStop)
 
 /-! ### wire helpers -/
 
@@ -90,15 +92,8 @@ def specAdd (args : List Exon) (t : List String) : Option String :=
   | [err, len, before, after, res, _, _, _] =>
     match parseNat len, parseExons before, parseExons after, parseExons res with
     | some len, some before, some after, some res =>
-      let old := before.take len
-      if err ≠ "ok" then
-        if after.take len ≠ old then some "rejected-Add-changed-the-receiver"
-        else if res ≠ old then some "rejected-Add-does-not-return-the-old-slice"
-        else none
-      else
-        if !sortedDisjoint res then some "accepted-exons-not-sorted-disjoint"
-        else if !(res.isPerm (old ++ args)) then some "accepted-exons-are-not-old-plus-new"
-        else none
+      -- `Spec.GeneCheck.addStatement`; proved in `Properties/C20_checker.lean` (`add_checker_iff`)
+      addStatement (err == "ok") (before.take len) (after.take len) res args
     | _, _, _, _ => some "unparsable-observation"
   | _ => some "unparsable-observation"
 
@@ -390,33 +385,14 @@ def specTx (cfg : TxCfg) (kind : String) (args prev : List Exon) (t : List Strin
   | [err, exons, intr, sel, u5, cd, u3, sh] =>
     match parseExons exons, parseIntrons intr, parseInts sel with
     | some es, some is, some [tstart, tend, tlen] =>
+      -- `Spec.GeneCheck.txStatement`; proved in `Properties/C20_checker.lean` (`tx_checker_sound`)
+      let utr : Option (Piece × Piece × Piece) :=
+        match parsePiece u5, parsePiece cd, parsePiece u3 with
+        | some a, some b, some c => some (a, b, c)
+        | _, _, _ => none
       let r : Option String :=
-        if err ≠ "ok" && es ≠ prev then some "rejected-update-changed-the-exon-set"
-        else if kind == "A" && err == "ok" then none
-        else if err == "ok" && !(sortedDisjoint es) then some "accepted-exons-not-sorted-disjoint"
-        else if err == "ok" && !(es.all (·.loc == 1)) then some "accepted-exons-not-on-the-transcript"
-        else if err == "ok" && startOf es ≠ 0 then some "accepted-exons-do-not-start-at-zero"
-        else if err == "ok" && !(es.isPerm (if kind == "R" then prev ++ args else args)) then
-          some "accepted-exons-are-not-the-given-ones"
-        else if !(alternate es is) then some "exons-and-introns-do-not-alternate"
-        else if !(intronsFit es is) then some "intron-is-not-the-gap-between-exons"
-        else if nonNeg es && !(tiles 0 tlen (interleave es is)) then some "exons-and-introns-do-not-tile-the-transcript"
-        else if tstart ≠ cfg.node.start || tend ≠ tstart + tlen then some "transcript-start-end-len-inconsistent"
-        else if !cfg.coding then none
-        else
-          let o := orientProduct (cfg.node :: cfg.loc)
-          if !cfg.node.oriented then none
-          else
-            match parsePiece u5, parsePiece cd, parsePiece u3 with
-            | some a, some b, some c =>
-              let order := utrOrder o a b c
-              if b ≠ (cfg.cdsStart, cfg.cdsEnd) then some "CDS-is-not-CDSstart-CDSend"
-              else if !(abuts 0 tlen order) then some "UTR-CDS-do-not-tile-in-orientation-order"
-              else if decide (0 ≤ cfg.cdsStart) && decide (cfg.cdsStart ≤ cfg.cdsEnd) && decide (cfg.cdsEnd ≤ tlen)
-                      && !(tiles 0 tlen order) then some "UTR-CDS-do-not-tile-in-orientation-order"
-              else if sh ≠ s!"{a.1},{a.2},{c.1},{c.2}" then some "UTR-shorthands-disagree"
-              else none
-            | _, _, _ => some "UTR-or-CDS-missing-for-an-oriented-transcript"
+        txStatement cfg.coding cfg.node cfg.loc cfg.cdsStart cfg.cdsEnd kind (err == "ok") args prev es is
+          tstart tend tlen utr sh
       (r, es)
     | _, _, _ => (some "unparsable-observation", prev)
   | _ => (some "unparsable-observation", prev)
@@ -489,10 +465,6 @@ def parseFeat (s : String) : Option FeatIv :=
 def parseFeats (s : String) : Option (List FeatIv) :=
   if s == "-" then some [] else (s.splitOn ";").mapM parseFeat
 
-def maxStop : List FeatIv → Int
-  | [] => 0
-  | f :: fs => max f.stop (maxStop fs)
-
 def gfStep (off : Int) (st : GeneSt × (Int × String)) (op : String) (ob : String) : Option ((GeneSt × (Int × String)) × Step) :=
   match splitOp op with
   | some ("F", arg) =>
@@ -507,14 +479,9 @@ def gfStep (off : Int) (st : GeneSt × (Int × String)) (op : String) (ob : Stri
         | [err, sel, tg] =>
           match parseInts sel with
           | some [s, en, l] =>
+            -- `Spec.GeneCheck.gfStatement`; proved in `Properties/C20_checker.lean` (`gf_checker_sound`)
             let r : Option String :=
-              if err ≠ "ok" then (if l ≠ plen || tg ≠ ptags then some "rejected-SetFeatures-changed-the-gene" else none)
-              else if tg ≠ tagsOf fs then some "accepted-features-are-not-the-given-ones"
-              else if !(fs.all (·.loc == 1)) then some "accepted-feature-not-on-the-gene"
-              else if !(fs.any (·.start == 0)) || fs.any (fun f => decide (f.start < 0)) then some "accepted-features-do-not-start-at-zero"
-              else if l ≠ maxStop fs then some "gene-length-is-not-the-largest-end"
-              else if s ≠ off || en ≠ s + l then some "gene-start-end-len-inconsistent"
-              else none
+              gfStatement (err == "ok") fs off s en l plen (tg == ptags) (tg == tagsOf fs)
             (r, (l, tg))
           | _ => (some "unparsable-observation", (plen, ptags))
         | _ => (some "unparsable-observation", (plen, ptags))
